@@ -896,6 +896,7 @@ CLHT_QUICK = {
     "C03": [("Map", "S1-slot-reuse"), ("Map", "S9-delete-insert"), ("Map", "S7-clear-vs-grow")],
     "C04": [("MapOf", "S1-slot-reuse"), ("MapOf", "S4-grow"), ("MapOf", "S9-delete-insert")],
     "C05": [("MapOf", "S10-racers"), ("Map", "S12-compute-chain")],
+    "C07": [("MapOf", "S14-range-writers"), ("Map", "S15-range-grow"), ("Map", "S16-range-clear")],
     "C08": [("MapOf", "S7-clear-vs-grow"), ("MapOf", "S5-shrink")],
     "C11": [("MapOf", "S13-compute-delete-absent"), ("Map", "S13-compute-delete-absent"), ("Map", "S3-append")],
     "C13": [("MapOf", "S7-clear-vs-grow"), ("Map", "S5-shrink")],
@@ -923,7 +924,7 @@ def clht_models(ctx, prop):
         ctx.cov["design_switches"] = {"refuted": sorted(k for k, v in m.items() if v["refuted_by"]), "not_discriminated": sorted(k for k, v in m.items() if not v["refuted_by"])}
 
 
-_orig_c03, _orig_c04, _orig_c05, _orig_c08, _orig_c11, _orig_c13 = check_c03, check_c04, check_c05, check_c08, check_c11, check_c13
+_orig_c03, _orig_c04, _orig_c05, _orig_c07, _orig_c08, _orig_c11, _orig_c13 = check_c03, check_c04, check_c05, check_c07, check_c08, check_c11, check_c13
 
 
 def _with_clht(pid, fn):
@@ -933,5 +934,5 @@ def _with_clht(pid, fn):
     return run
 
 
-for _pid, _fn in (("C03", _orig_c03), ("C04", _orig_c04), ("C05", _orig_c05), ("C08", _orig_c08), ("C11", _orig_c11), ("C13", _orig_c13)):
+for _pid, _fn in (("C03", _orig_c03), ("C04", _orig_c04), ("C05", _orig_c05), ("C07", _orig_c07), ("C08", _orig_c08), ("C11", _orig_c11), ("C13", _orig_c13)):
     CHECKS[_pid] = _with_clht(_pid, _fn)
